@@ -57,7 +57,9 @@ def strategy(ctx):
     plain = S.circuit_spec(min_inputs=0, max_inputs=5, min_gates=1, max_gates=9, max_fanin=5, io_outputs=True)
     adv = S.circuit_spec(min_inputs=1, max_inputs=4, min_gates=1, max_gates=8, max_fanin=4, io_outputs=True,
                          pools=(HELPERLIKE,))
-    return st.builds(lambda s: {"spec": s}, st.one_of(plain, plain, adv))
+    adv2 = S.circuit_spec(min_inputs=2, max_inputs=5, min_gates=2, max_gates=8, max_fanin=5, io_outputs=True, min_fanin_nary=2,
+                          pools=(list(S.COMPOUND) + ["N1", "N10", "N11", "N13", "N17", "N19", "d", "dA", "a_0", "a0", "N1_X", "d_X"],))
+    return st.builds(lambda s: {"spec": s}, st.one_of(plain, plain, adv, adv2))
 
 
 def kleene_tables(c, isx_in, val_in, W):
